@@ -7,6 +7,7 @@ import (
 	"go/types"
 	"math"
 	"strings"
+	"time"
 
 	"golang.org/x/tools/go/ssa"
 )
@@ -25,11 +26,14 @@ type Config struct {
 	StopOnViol     bool
 	Known          map[string]bool // known-finding ids
 	AllocBound     int             // bound for symbolic make sizes (elements)
+	Thorough       bool
+	Deadline       time.Time
+	OKSampleMax    int
 }
 
 type Stats struct {
 	Steps, Forks, Merges, MergeFails, Paths, Calls int
-	PathsOK, PathsViol, PathsDead, PathsKnown     int
+	PathsOK, PathsViol, PathsDead, PathsKnown      int
 }
 
 type Event struct {
@@ -103,6 +107,11 @@ type PathResult struct {
 	Covers []string
 }
 
+type OKSample struct {
+	Model   []DrawVal
+	Observe []DrawVal
+}
+
 type DrawVal struct {
 	Name string   `json:"n"`
 	Val  uint64   `json:"v"`
@@ -110,29 +119,31 @@ type DrawVal struct {
 }
 
 type Exec struct {
-	ctx      *Ctx
-	sol      *Solver
-	prog     *ssa.Program
-	cfg      Config
-	fninfo   map[*ssa.Function]*FnInfo
-	globals  map[*ssa.Global]*Object
-	pkgInit  map[*ssa.Package]int
-	strCache map[string]*StrV
-	stats    Stats
-	events   []Event
-	results  []PathResult
-	epochs   int
-	nobj     int
-	entered  map[string]int
-	covers   map[string]int
-	stopAll  bool
-	sizes    types.Sizes
-	typeIDs  map[string]int
-	hooks    map[string]*ssa.Function // function full name -> replacement
-	nFeas    int
-	cutKnown map[string]int
+	ctx        *Ctx
+	sol        *Solver
+	prog       *ssa.Program
+	cfg        Config
+	fninfo     map[*ssa.Function]*FnInfo
+	globals    map[*ssa.Global]*Object
+	pkgInit    map[*ssa.Package]int
+	strCache   map[string]*StrV
+	stats      Stats
+	events     []Event
+	results    []PathResult
+	epochs     int
+	nobj       int
+	entered    map[string]int
+	covers     map[string]int
+	stopAll    bool
+	sizes      types.Sizes
+	typeIDs    map[string]int
+	hooks      map[string]*ssa.Function // function full name -> replacement
+	nFeas      int
+	cutKnown   map[string]int
 	initTarget *ssa.Function
 	notes      []string
+	inInit     int
+	okSamples  []OKSample
 }
 
 func NewExec(prog *ssa.Program, cfg Config, solverBin, logPath string) (*Exec, error) {
@@ -534,7 +545,7 @@ func (e *Exec) mergeTwo(a, b Outcome, basePC int) (Outcome, bool) {
 			return a, false
 		}
 	}
-	if len(sa.draws) != len(sb.draws) || len(sa.panics) != len(sb.panics) || sa.npre != sb.npre {
+	if len(sa.draws) != len(sb.draws) || len(sa.panics) != len(sb.panics) || sa.npre != sb.npre || !sameObs(sa.observes, sb.observes) {
 		e.stats.MergeFails++
 		return a, false
 	}
@@ -635,10 +646,17 @@ func (e *Exec) mergeTwo(a, b Outcome, basePC int) (Outcome, bool) {
 			draws[i].T = e.ctx.Ite(ga, sa.draws[i].T, sb.draws[i].T)
 		}
 	}
+	obs := make([]Draw, len(sa.observes))
+	for i := range obs {
+		obs[i] = sa.observes[i]
+		if sa.observes[i].T != sb.observes[i].T {
+			obs[i].T = e.ctx.Ite(ga, sa.observes[i].T, sb.observes[i].T)
+		}
+	}
 	pc := append([]*Term(nil), sa.pc[:basePC]...)
 	pc = append(pc, e.ctx.Or(ga, gb))
 	ns := &State{pc: pc, heap: heap, epoch: epoch, draws: draws, covers: unionStrings(sa.covers, sb.covers),
-		panics: sa.panics, steps: maxInt(sa.steps, sb.steps), prefix: sa.prefix, npre: sa.npre, depth: sa.depth}
+		panics: sa.panics, steps: maxInt(sa.steps, sb.steps), prefix: sa.prefix, npre: sa.npre, depth: sa.depth, observes: obs}
 	e.stats.Merges++
 	return Outcome{kind: a.kind, st: ns, fr: fr, val: val}, true
 }
@@ -705,7 +723,13 @@ func (e *Exec) unwindPanic(st *State, fr *Frame, pi *PanicInfo, pval Value) []Ou
 				res = append(res, Outcome{kind: OReturn, st: s, val: e.zeroResults(fr.fn)})
 			}
 		} else {
-			res = append(res, Outcome{kind: OPanic, st: s, pinfo: top.Info, val: top.Val})
+			o := Outcome{kind: OPanic, st: s, pinfo: top.Info, val: top.Val}
+			if s.depth == 1 && e.inInit == 0 {
+				// the panic leaves the harness: finish the path now (eager reporting, early stop)
+				e.finishPath(o)
+				continue
+			}
+			res = append(res, o)
 		}
 	}
 	return res
@@ -796,6 +820,21 @@ func (e *Exec) enter(st *State, fr *Frame, from, to *ssa.BasicBlock) bool {
 }
 
 func (e *Exec) runBlock(st *State, fr *Frame, blk *ssa.BasicBlock, idx int, stop *ssa.BasicBlock) (res []Outcome) {
+	defer func() {
+		if r := recover(); r != nil {
+			if e.inInit > 0 {
+				panic(r)
+			}
+			switch u := r.(type) {
+			case unsupportedErr:
+				e.event("unsupported", u.msg+" [in "+fr.fn.String()+"]")
+			case frozenViolation:
+				res = append(res, Outcome{kind: OPanic, st: st, pinfo: &PanicInfo{Kind: "frozen", Msg: "write to shared object " + u.obj.name, Site: fr.fn.String()}})
+			default:
+				panic(r)
+			}
+		}
+	}()
 	for {
 		if e.stopAll {
 			return res
@@ -807,6 +846,11 @@ func (e *Exec) runBlock(st *State, fr *Frame, blk *ssa.BasicBlock, idx int, stop
 			idx++
 			st.steps++
 			e.stats.Steps++
+			if e.stats.Steps&0xfff == 0 && !e.cfg.Deadline.IsZero() && time.Now().After(e.cfg.Deadline) {
+				e.event("budget", "wall-clock budget of this case exhausted")
+				e.stopAll = true
+				return res
+			}
 			if st.steps > e.cfg.MaxSteps {
 				e.event("fuel", fmt.Sprintf("step budget %d exhausted in %s", e.cfg.MaxSteps, fr.fn))
 				return res
@@ -1008,7 +1052,6 @@ func (e *Exec) setRegIf(fr *Frame, x *ssa.Call, v Value) {
 	}
 }
 
-
 func (e *Exec) panicMsg(v Value) string {
 	if iv, ok := v.(*IfaceV); ok && iv.T != nil {
 		if s, ok := iv.V.(*StrV); ok {
@@ -1102,6 +1145,8 @@ func (e *Exec) ensureInit(p *ssa.Package) {
 	ist := e.newState()
 	ist.depth = 0
 	saveSteps, saveUnwind, saveT := e.cfg.MaxSteps, e.cfg.Unwind, e.initTarget
+	e.inInit++
+	defer func() { e.inInit-- }()
 	func() {
 		defer func() {
 			if r := recover(); r != nil {
@@ -1164,6 +1209,9 @@ type contAlt struct {
 func (e *Exec) step(st *State, fr *Frame, in ssa.Instruction, res *[]Outcome) ([]contAlt, bool) {
 	if n, ok := in.(*ssa.Next); ok {
 		return e.next(st, fr, n, res)
+	}
+	if r, ok := in.(*ssa.Range); ok {
+		return e.rangeAlts(st, fr, r)
 	}
 	return nil, e.step1(st, fr, in, res)
 }
@@ -1297,8 +1345,6 @@ func (e *Exec) step1(st *State, fr *Frame, in ssa.Instruction, res *[]Outcome) b
 		e.setReg(fr, x, t.F[x.Index])
 	case *ssa.TypeAssert:
 		return e.typeAssert(st, fr, x, res)
-	case *ssa.Range:
-		e.setReg(fr, x, e.mkRange(st, fr, x))
 	case *ssa.SliceToArrayPointer:
 		s := e.eval(st, fr, x.X).(*SliceV)
 		n := x.Type().Underlying().(*types.Pointer).Elem().Underlying().(*types.Array).Len()
@@ -1902,4 +1948,16 @@ func isStdPkg(path string) bool {
 		first = path[:i]
 	}
 	return !strings.Contains(first, ".") && first != "vt"
+}
+
+func sameObs(a, b []Draw) bool {
+	if len(a) != len(b) {
+		return false
+	}
+	for i := range a {
+		if a[i].Name != b[i].Name || a[i].T.sort != b[i].T.sort {
+			return false
+		}
+	}
+	return true
 }
